@@ -69,7 +69,8 @@ def integrator_classes(repo):
 
 
 def tasks(tier):
-    return ['static', 'accel', 'traces', 'frames', 'bounded', 'canary']
+    return ['static', 'accel', 'traces', 'frames', 'bounded', 'canary',
+            'helper_text']
 
 
 def static_module(repo):
@@ -100,6 +101,8 @@ def run_task(task, ctx):
         return task_frames(ctx, repo)
     if task == 'bounded':
         return task_bounded(ctx, repo)
+    if task == 'helper_text':
+        return task_helper_text(ctx, repo)
     if task == 'canary':
         t = z3.Real('ct')
         ctx.canary('canary.must_fail', Obligation('c', [], t + 1 == t))
@@ -463,3 +466,99 @@ def task_bounded(ctx, repo):
     ctx.prove('bounded_checks_ran', [Obligation(
         'ran', [], _bool(res is not None), m.path)],
         info='bounded, not proved: see coverage.bounded')
+
+
+# ------------------------------------------------ text emitted by the helper
+def task_helper_text(ctx, repo):
+    """The small emitters of IntegratorCythonHelper that wire steppers into
+    the compiled integrator: each dest gets ITS OWN stepper class and object
+    (defs/init), the stage call passes the method's arguments in order
+    without self, the array set-up binds every d_/s_ argument to the same
+    named property of dst, the py_stage hook is called with (dst.array, t,
+    dt), and the wrapped method names are initialize / stageN of any stepper
+    (py_stageN counted as stageN), sorted."""
+    m = repo.module('pysph.sph.integrator_cython_helper')
+    cls = 'IntegratorCythonHelper'
+    W = m.path
+
+    def stepper(cname, methods, py=()):
+        attrs = {'__class__': SymObject(None, {'__name__': cname}, 'cls')}
+        for k in list(methods) + ['py_' + p for p in py]:
+            attrs[k] = ('method', cname, k)
+        o = SymObject(None, attrs, 'stepper_' + cname)
+        o.argspec = methods
+        return o
+    stA = stepper('AStep', {'initialize': ['self', 'd_idx', 'd_x', 'd_x0'],
+                            'stage1': ['self', 'd_idx', 'd_u', 'd_au', 'dt'],
+                            'stage2': ['self', 'd_idx', 'd_x', 'd_u', 's_m',
+                                       't', 'dt']}, py=('stage1',))
+    stB = stepper('BStep', {'stage1': ['self', 'd_idx', 'd_rho', 'dt']},
+                  py=('stage3',))
+    integ = SymObject(None, dict(steppers={'fluid': stA, 'solid': stB}),
+                      'integrator')
+
+    def mk():
+        o = SymObject(cls, dict(object=integ), 'self')
+        o.module = m.name
+        return o
+
+    def argspec(e, s_, a, k, n):
+        meth = a[0]
+        owner = stA if meth[1] == 'AStep' else stB
+        return SymObject(None, dict(args=list(owner.argspec[meth[2]])),
+                         'spec')
+
+    def dirx(e, s_, a, k, n):
+        return sorted(k_ for k_ in a[0].attrs if not k_.startswith('__'))
+
+    def run(name, **args):
+        ex = Executor(repo, m, qualname='%s.%s' % (cls, name), merge=False,
+                      inline={cls + '.get_args', 'get_array_names'},
+                      externals={'getfullargspec': argspec})
+        ex.spec_env['dir'] = Native(dirx)
+        fn = m.methods(cls)[name]
+        outs = ex.exec_function(fn, dict(self=mk(), **args))
+        ctx.function(m, fn, '%s.%s' % (cls, name), ex.dropped)
+        return outs[0].value if len(outs) == 1 else ('paths', len(outs))
+    checks = []
+    try:
+        checks.append(('stepper_defs', run('get_stepper_defs'),
+                       'cdef public AStep fluid_stepper\n'
+                       'cdef public BStep solid_stepper'))
+        checks.append(('stepper_init', run('get_stepper_init'),
+                       'self.fluid_stepper = AStep(**steppers["fluid"].'
+                       '__dict__)\nself.solid_stepper = BStep(**steppers['
+                       '"solid"].__dict__)'))
+        checks.append(('stepper_loop', run('get_stepper_loop', dest='fluid',
+                                           method='stage2'),
+                       'self.fluid_stepper.stage2(d_idx, d_x, d_u, s_m, t, '
+                       'dt)'))
+        checks.append(('stepper_loop.other_dest', run(
+            'get_stepper_loop', dest='solid', method='stage1'),
+            'self.solid_stepper.stage1(d_idx, d_rho, dt)'))
+        checks.append(('array_setup', run('get_array_setup', dest='fluid',
+                                          method='stage2'),
+                       'd_u = dst.u.data\nd_x = dst.x.data\n'
+                       's_m = dst.m.data'))
+        checks.append(('py_stage', run('get_py_stage_code', dest='fluid',
+                                       method='stage1'),
+                       'self.steppers["fluid"].py_stage1(dst.array, t, dt)'))
+        checks.append(('py_stage.absent', run('get_py_stage_code',
+                                              dest='fluid', method='stage2'),
+                       ''))
+        checks.append(('wrapper_names', run(
+            'get_stepper_method_wrapper_names'),
+            ['initialize', 'stage1', 'stage2', 'stage3']))
+        checks.append(('has_loop', run('has_stepper_loop', dest='solid',
+                                       method='stage1'), True))
+        checks.append(('has_loop.absent', run('has_stepper_loop',
+                                              dest='solid',
+                                              method='stage2'), False))
+    except VCError as e:
+        ctx.outside('helper_text', str(e))
+        return
+    obs = [Obligation('helper_text.' + nm, [], z3.BoolVal(got == want), W,
+                      extra=dict(emitted=str(got)[:200],
+                                 documented=str(want)[:200]))
+           for nm, got, want in checks]
+    ctx.prove('helper_text.steppers_are_wired_to_their_own_array', obs)
